@@ -82,6 +82,9 @@ class Interp(Engine):
             return ExtV(dotted)
         if kind == "assign":
             mod, expr = r[1], r[2]
+            if isinstance(expr, ast.Call) and isinstance(expr.func, ast.Name) and expr.func.id == "try_import" \
+                    and len(expr.args) == 1 and isinstance(expr.args[0], ast.Constant):
+                return ModuleV(expr.args[0].value)       # optional dependency, present in this environment
             key = (mod.name, name)
             if key not in self.global_cache:
                 self.global_cache[key] = self.eval_const(expr, mod, node)
@@ -276,7 +279,7 @@ class Interp(Engine):
             seq = self.as_seq(v, node)
             et = self.elem_tag(v)
             tags = [et] * n
-            if et and et.startswith("("):
+            if et and et.startswith("(") and isinstance(v, SV) and parse_tag(v.ty)[0] == "ftuple":
                 tags = _split_tags(et)
                 if len(tags) == n:
                     self.assume(z3.Length(seq) == n)     # fixed-arity tuple (trusted typing)
@@ -322,7 +325,12 @@ class Interp(Engine):
                     saved = self.frame.cur_exc
                     self.frame.cur_exc = r.exc
                     if h.name:
-                        self.frame.locals[h.name] = r.exc
+                        bound = r.exc
+                        if h.type is not None:
+                            hv = self.ev(h.type)
+                            if isinstance(hv, ClassV) and hv.info is not None and isinstance(bound, SV):
+                                bound = SV(bound.term, hv.info.name)     # `except C as e`: e is (at least) a C
+                        self.frame.locals[h.name] = bound
                     try:
                         self.exec_block(h.body)
                     finally:
@@ -378,6 +386,25 @@ class Interp(Engine):
             if not broke:
                 self.exec_block(node.orelse)
             return
+        if isinstance(it, SV) and parse_tag(it.ty)[0] == "list" and not self.discovery:
+            # a list whose contents are statically known on this path (built just before): unroll
+            from .calls import static_seq_items
+            items = static_seq_items(z3.simplify(self.list_of(it)))
+            if items is not None and len(items) <= 4:
+                et = self.elem_tag(it)
+                broke = False
+                for t in items:
+                    self.assign(node.target, self.from_term(t, et), node)
+                    try:
+                        self.exec_block(node.body)
+                    except PyContinue:
+                        continue
+                    except PyBreak:
+                        broke = True
+                        break
+                if not broke:
+                    self.exec_block(node.orelse)
+                return
         self.loop(node, it, None)
 
     def iter_seq(self, it, node):
@@ -392,7 +419,7 @@ class Interp(Engine):
             return seq, it.elem
         if isinstance(it, SV):
             kind, arg = parse_tag(it.ty)
-            if kind in ("list", "tuple", "seq", "iter"):
+            if kind in ("list", "tuple", "ftuple", "seq", "iter"):
                 return self.as_seq(it, node), arg
             if kind in ("set", "frozenset", "anyset"):
                 m = self.setmap_of(it)
@@ -844,8 +871,8 @@ class Interp(Engine):
         if isinstance(v, SV):
             k, arg = parse_tag(v.ty)
             if k == "opt":
-                return parse_tag(arg)[0]     # used where the code has already excluded None
-            return k
+                k = parse_tag(arg)[0]     # used where the code has already excluded None
+            return "tuple" if k == "ftuple" else k
         if isinstance(v, TupV):
             return "TupV"
         return type(v).__name__
@@ -920,6 +947,12 @@ class Interp(Engine):
     def is_same(self, a, b, node):
         if isinstance(a, SV) and isinstance(b, SV):
             return a.term == b.term
+        if isinstance(a, ModuleV) or isinstance(b, ModuleV):
+            return z3.BoolVal(isinstance(a, ModuleV) and isinstance(b, ModuleV) and a.name == b.name)
+        if isinstance(a, ExtV):
+            a = ClassV(ext=a.dotted)
+        if isinstance(b, ExtV):
+            b = ClassV(ext=b.dotted)
         if isinstance(a, ClassV) and isinstance(b, ClassV):
             return z3.BoolVal(self.class_key(a.info or a.ext) == self.class_key(b.info or b.ext))
         if isinstance(a, (ClassV, SV)) and isinstance(b, (ClassV, SV)):
@@ -1062,7 +1095,7 @@ class Interp(Engine):
             i = z3.simplify(z3.If(i < 0, n + i, i))
             ok = z3.And(0 <= i, i < n)
             et = self.elem_tag(obj)
-            if et and et.startswith("(") and isinstance(obj, SV) and parse_tag(obj.ty)[0] == "tuple" and parse_tag(obj.ty)[1] == et:
+            if et and et.startswith("(") and isinstance(obj, SV) and parse_tag(obj.ty)[0] == "ftuple":
                 tags = _split_tags(et)
                 et = tags[i.as_long()] if z3.is_int_value(i) and 0 <= i.as_long() < len(tags) else None
                 if z3.is_int_value(i) and 0 <= i.as_long() < len(tags):
@@ -1183,7 +1216,7 @@ class Interp(Engine):
             return v.items
         seq = self.as_seq(v, node)
         et = self.elem_tag(v)
-        tags = _split_tags(et) if et and et.startswith("(") else [et] * n
+        tags = _split_tags(et) if et and et.startswith("(") and isinstance(v, SV) and parse_tag(v.ty)[0] == "ftuple" else [et] * n
         return [self.from_term(seq[i], tags[i] if i < len(tags) else None) for i in range(n)]
 
     def pop_bind(self):
